@@ -1,0 +1,14 @@
+//go:build !verif
+
+// Package verifhook: without the build tag `verif` every hook is an empty, inlineable stub.
+package verifhook
+
+func Point(string) {}
+
+func Count(string) {}
+
+func Mut(string, string, int) {}
+
+func FaultWrite(string, []byte) (int, error, bool) { return 0, nil, false }
+
+func DiskFree(_ string, real uint64) uint64 { return real }
